@@ -433,12 +433,20 @@ def prog_C20(ctx):
     def cov(ctx, st):
         ctx.cov.update(evaluations=st['Ops'] + st['Reinits'], distinct_nontrivial=st['HashEditKinds'] + st['Scenarios'], exhaustive=False,
                        reinitialisations=st['Reinits'], hash_edits=st['HashEdits'], driver_notes=(st.get('Notes') or [])[:10])
-    generic(ctx, ['Dc4bcVerif.Props.C20', 'Dc4bcVerif.Props.C20Node', 'Dc4bcVerif.Props.C12', 'Dc4bcVerif.Props.C08'], 'reinitdiff', 'reinit', ['C20'],
+    res0 = generic(ctx, ['Dc4bcVerif.Props.C20', 'Dc4bcVerif.Props.C20Node', 'Dc4bcVerif.Props.C20Air', 'Dc4bcVerif.Props.C12', 'Dc4bcVerif.Props.C08'], 'reinitdiff', 'reinit', ['C20'],
             ['translator: the order in which CalcStartReInitDKGMessageHash writes the fields (Gen/NodeGlue.lean reinitHashOrder), regenerated on every run; order_matches_source is kernel-evaluated',
              'reinitdiff: a completed real ceremony (signing batches and junk on the board, incl. a forged decline every original node rejected) is re-initialised from a dump of its board on fresh nodes with new communication keys and fresh airgapped databases with the same mnemonics, through GenerateReDKGMessage (+ GetAdaptedReDKG on dumps stripped of self-confirmations), ReInitDKG, the reinit operation and the airgapped replay; every node must end signing-ready with the same participants, threshold and public polynomial, every machine with the same share, a batch signed afterwards must verify (prysm) under the ORIGINAL group key; the confirmation hash must be the same on every node and change under every single-field edit (the Lean model of the hashed byte string must agree on every edit)',
-             'assumed: SHA-1 collision resistance; %d rendering injective; the glue of reinitDKG / handleReinitDKG is exercised, not modelled'],
+             'the airgapped side (Model/AirReinit.lean: handleReinitDKG over the handler model; Props/C20Air.lean): every reinit_dkg operation a real machine handles in these runs is written down for the model - a SHADOW machine (fresh database, same mnemonic) is handed the entries of the payload one by one, each compared with the model like any key-generation operation, and the model\'s reinitOp over those entries must give the real machine\'s answer (the public polynomial of operation_processed_successfully / error result / fatal) and the share it holds afterwards; re-initialised machines stopped, reopened and replayed, and machines that died inside the operation and are handed it again, are `stop` + the operation again; the translation of operations into the model\'s terms is harness code (see the airdkg stream)',
+             'assumed: SHA-1 collision resistance; %d rendering injective; Go\'s range order in the master-key step is taken to be the same in ceremony and re-initialisation (the deals step is covered by C12AirOrder.responses_order_irrelevant)'],
             'per scenario also: every re-initialised machine stopped, reopened and replayed, then a batch (must verify under the original group key), and the reinit operation handed over a second time after a kill between key ring and log; a fourth quick scenario whose junk holds a signing proposal posted before the end of the key generation (fix c405ec9); three ceremonies quick [(3,2) plain; (2,2) with signing batches and junk; (3,2) junk + 0.1.4 adaptation], seven thorough; per file: every header and participant field, and 7 fields of 12 (quick) or all (thorough) messages, messages of other rounds first',
             cov_from_stats=cov)
+    # the airgapped side: the key-generation operations of the original ceremonies and every reinit_dkg operation of the new
+    # installations (with restarts) against Model/AirDkg.lean + Model/AirReinit.lean
+    airdkg_part(ctx, res0)
+    if res0 is not None and 'airgapped_dkg_handlers' in ctx.cov:
+        st = res0['stats'].get('AirDkg') or {}
+        ctx.cov['airgapped_dkg_handlers'].update(restarts=st.get('Restarts'), replayed_operations=st.get('Replayed'),
+                                                 reinit_operations=(st.get('ByKind') or {}).get('reinit'), reinit_entries=st.get('ReinitEntries'), reinit_entries_passed_over=st.get('ReinitPassedOver'))
     # the node side: the Lean model of reinitDKG is compared with the real handler on real dumps (plain and adapted), and
     # crafted reinit messages are probed against existing rounds
     res = run_linediff(ctx, 'nodediff', 'node')
